@@ -301,7 +301,7 @@ def stepSrv (st : St) (toks : List String) (impl : String) : St × LineResult :=
     let r := it.findSome? (kvOf · "r")
     match q, r, parseHexBytes payload with
     | some q, some r, some pl =>
-      if q == "unparsed" then (st, { modelObs := s!"q=unparsed r=none {showLeases st.srv} d=-" }) else
+      if q == "unparsed" then (st, { modelObs := s!"q=unparsed r=none sv=- {showLeases st.srv} d=-" }) else
       match parseQ q with
       | none => (st, { modelObs := "badop" })
       | some pq =>
@@ -322,8 +322,25 @@ def stepSrv (st : St) (toks : List String) (impl : String) : St × LineResult :=
             -- map (Lease.STag/CTag are never set); its entries come from the Loader API alone (cachedIp = none)
             if reqPl == pl && cachedIp.isSome then compareReplies reqPl fastReply cachedIp cfgZero foreignCid misread replyBytes else []
           | none => []
+        -- the fields userspace sends, from the model's state (yiaddr and the decision come from the reply)
+        let showF (x : Option (List UInt8)) : String := match x with | some v => hexOrDash v | none => "-"
+        let sv : String :=
+          match replyBytes, replyType with
+          | some b, some [ty] =>
+            if ty == 2 || ty == 5 then
+              let yi := UInt32.ofNat ((bytesAt b 16 4).foldl (fun acc x => acc * 256 + x.toNat) 0)
+              let poolId? : Option UInt32 :=
+                if ty == 5 then (AMap.lookup srv'.leases pq.mac).map (·.poolId)
+                else match st.srv.existing pq.mac pq.relayed pq.cid with
+                  | some l => if st.srv.now < l.exp then some l.poolId else st.srv.defaultPool
+                  | none => st.srv.defaultPool
+              match poolId?.bind (AMap.lookup st.srv.pools) with
+              | some P => ":".intercalate ((slowView ty yi st.srv.serverIp P).fields.map showF)
+              | none => "nopool"
+            else "-"
+          | _, _ => "-"
         ({ st with srv := srv', lastTx := none },
-         { modelObs := s!"q={q} r={r} {showLeases srv'} d={delta old srv'.maps}", viols := viols })
+         { modelObs := s!"q={q} r={r} sv={sv} {showLeases srv'} d={delta old srv'.maps}", viols := viols })
     | _, _, _ => (st, { modelObs := "badop" })
   | ["cleanup"] =>
     let srv' := st.srv.step .cleanup
@@ -394,14 +411,14 @@ def stepRaw (st : St) (toks : List String) (impl : String) : St × LineResult :=
 def step (st : St) (toks : List String) (impl : String) : St × LineResult :=
   match toks with
   | ["new", "raw"] => ({ mode := .raw }, { modelObs := "ok" })
-  | ["new", "srv", _ip] =>
+  | ["new", "srv", ip] =>
     -- the virtual clock's start is an input (the harness reports it)
-    match (splitTokens impl).findSome? (kvOf · "t") |>.bind String.toNat? with
-    | some t =>
-      let srv : Srv := { now := t }
+    match (splitTokens impl).findSome? (kvOf · "t") |>.bind String.toNat?, parseIp ip with
+    | some t, some ip =>
+      let srv : Srv := { now := t, serverIp := ip }
       ({ mode := .srv, srv := srv },
        { modelObs := s!"ok t={t} d={delta { cfg := none } srv.maps}" })
-    | none => (st, { modelObs := "badop" })
+    | _, _ => (st, { modelObs := "badop" })
   | _ =>
     match st.mode with
     | .raw => stepRaw st toks impl
